@@ -342,8 +342,11 @@ def run_check(pid, tier="quick", seed=0, workers=None, limit=None, verbose=True)
         "wall_s": round(time.time() - t0, 2),
         "violations": len(reported),
     }
-    os.makedirs(os.path.join(VERIF, "evidence"), exist_ok=True)
-    with open(os.path.join(VERIF, "evidence", f"{pid}.json"), "w") as f:
+    evdir = os.environ.get("ACMC_EVIDENCE_DIR") or (
+        os.path.join(VERIF, "evidence") if os.path.realpath(REPO) == "/repo" else os.path.join(VERIF, "scratch", "evidence")
+    )
+    os.makedirs(evdir, exist_ok=True)
+    with open(os.path.join(evdir, f"{pid}.json"), "w") as f:
         json.dump(ev, f, indent=1, sort_keys=True, default=str)
 
     # ---- report ---------------------------------------------------------------------------
